@@ -162,7 +162,7 @@ class PropertyCall:
         self.q, self.o = q, o
 
 
-SPEC_NAMES = {'TXT', 'ALL', 'SAME_ITEMS', 'MATCH', 'NOMATCH', 'UB', 'SORTED', 'SUFFIX', 'FRESH'}
+SPEC_NAMES = {'TXT', 'ALL', 'SAME_ITEMS', 'MATCH', 'NOMATCH', 'UB', 'SORTED', 'SUFFIX', 'FRESH', 'ALLWS'}
 
 
 class ClosureEnv:
@@ -978,8 +978,11 @@ class Exec:
         self._pending_raises.append((st, cls_name, msg))
 
     def e_Call(self, node, st):
-        if getattr(self, '_in_spec', False) and isinstance(node.func, ast.Name) and node.func.id in ('old', 'entry'):
-            base = self._old_state if node.func.id == 'old' else self._entry_state
+        if getattr(self, '_in_spec', False) and isinstance(node.func, ast.Name) and node.func.id in ('old', 'entry', 'iter_start'):
+            base = {'old': getattr(self, '_old_state', None), 'entry': getattr(self, '_entry_state', None),
+                    'iter_start': getattr(self, '_iter_state', None)}[node.func.id]
+            if base is None:
+                raise OutsideSubset('%s() used where no such state exists' % node.func.id)
             tmp = base.fork()
             n0 = len(tmp.pc)
             r = self.eval(node.args[0], tmp)
@@ -1034,8 +1037,13 @@ class Exec:
         # (only its elements are ever observed: membership tests, join, tuple())
         if len(node.generators) == 1 and not node.generators[0].ifs and isinstance(node.generators[0].target, ast.Name):
             g = node.generators[0]
+            # (the outermost iterable of a generator expression is evaluated immediately, so an exception raised by
+            # that expression propagates from here: PyExc is not caught around this evaluation)
             try:
-                r = self.eval(g.iter, st)
+                r = self.eval(g.iter, st.fork())
+            except OutsideSubset:
+                r = []
+            try:
                 if len(r) == 1 and isinstance(r[0][1], tuple) and not self.W.is_tt(r[0][1]):
                     s1, seq = r[0]
                     name = g.target.id
@@ -1325,6 +1333,9 @@ class Exec:
                 else:
                     # bound on one side only: keep it unbound after the join (use would be an UnboundLocalError)
                     m.env.pop(name, None)
+            if set(s1.ghost) != set(s2.ghost):
+                # ghost state (incl. field taint, recorded calls) that exists on one side only cannot be merged
+                return None
             for name in set(s1.ghost) | set(s2.ghost):
                 if name in s1.ghost and name in s2.ghost:
                     m.ghost[name] = self.merge_val(s1.ghost[name], s2.ghost[name], c1)
@@ -1445,6 +1456,21 @@ class Exec:
         else:
             st.assume(z)
 
+    def spec_value(self, text, st, extra=None):
+        """value of a (non-forking) sidecar expression in state st, e.g. the new value of a ghost variable"""
+        node = ast.parse(text.strip(), mode='eval').body
+        s = st.fork()
+        if extra:
+            s.env.update(extra)
+        old_spec, self._in_spec = getattr(self, '_in_spec', False), True
+        try:
+            r = self.eval(node, s)
+        finally:
+            self._in_spec = old_spec
+        if len(r) != 1:
+            raise OutsideSubset('ghost expression %r forks' % text[:60])
+        return r[0][1]
+
     def spec(self, text, st, extra=None):
         """evaluate a sidecar spec expression in state st (+ extra bindings) to bool / z3 Bool"""
         node = ast.parse(text.strip(), mode='eval').body
@@ -1462,6 +1488,13 @@ class Exec:
             facts, self._facts = self._facts, old_facts
         for f in facts:
             st.assume(f)
+        aw = st.ghost.get('__allws__', ())
+        for x in r:
+            for e in x[0].ghost.get('__allws__', ()):
+                if not any(e is e2 for e2 in aw):
+                    aw = aw + (e,)
+        if aw:
+            st.ghost['__allws__'] = aw
         regs = [x[0].ghost['__mfacts__'] for x in r if '__mfacts__' in x[0].ghost]
         if regs:
             # registry of ghost-law terms seen so far (union over the forks of the spec evaluation)
